@@ -1390,7 +1390,7 @@ def check(run):
         'judged inside Coq on every real tree; it is not proved for the paint list of arbitrary trees']
 
     # ---------------------------------------------------------------- stream 1: from_box on synthetic trees
-    n_synth = 2500 if thorough else 500
+    n_synth = 2500 if thorough else 400
     trees = [gen_synth(rng, rng.choice([6, 12, 25, 40])) for _ in range(n_synth)]
     outs = common.run_impl('impl_c17', 'stacking_synth', [{'tree': t} for t in trees])
     kinds = {c: k for c, k, _ in SYNTH_CLASSES}
@@ -1433,7 +1433,7 @@ def check(run):
         run.oblige('corr:frombox-synth', False, str(exc))
 
     # ------------------------------------------------- streams 2-4: documents -> from_page tie, monitors A and B
-    n_docs = 1500 if thorough else 160
+    n_docs = 1500 if thorough else 140
     docs = []
     for k in range(n_docs):
         prof = 'strict' if k % 4 == 0 else 'full'
